@@ -86,7 +86,9 @@ pub fn gen_map(rng: &mut Rng, t: &str, zero_width_eol: bool, content_for: &dyn F
   let with_content = rng.chance(2);
   let fixed = FIXED_CONTENT_POLICY.with(|c| c.get());
   // fixed policy: whether a file has content depends on its name only (s2.js never has), so a name shared by several maps carries the same content everywhere
-  let contents = if fixed { sources.iter().take(2).map(|s| content_for(s)).collect() } else if with_content { sources.iter().map(|s| content_for(s)).collect() } else { vec![] };
+  let contents = if fixed { sources.iter().take(2).map(|s| content_for(s)).collect() } else if with_content {
+    // now and then fewer contents than sources (non-empty but shorter: the crate produces that shape itself, e.g. ConcatSource[OriginalSource, SourceMapSource without contents].map())
+    let mut c: Vec<String> = sources.iter().map(|s| content_for(s)).collect(); if nsrc >= 2 && rng.chance(3) { c.truncate(1 + rng.below(nsrc - 1)); } c } else { vec![] };
   // sourceRoot: absent, empty, without / with one / with several trailing slashes, a bare slash, a scheme
   let root = match rng.below(9) { 0 => Some("".to_string()), 1 => Some("r".to_string()), 2 => Some("r/".to_string()), 3 => Some(["r//", "webpack://", "/", "//", "a/b", "file:///"][rng.below(6)].to_string()), _ => None };
   SMapT { mappings: encode_any(rng, ms), sources, contents, names, file: if rng.chance(2) { Some("x".into()) } else { None }, root, debug_id: if rng.chance(5) { Some(["dbg", "0a1b"][rng.below(2)].to_string()) } else { None } }
